@@ -22,9 +22,12 @@ pub axiom fn axiom_size_of_byte_slice_ref<'a>()
 
 // ASSUMED (prelude row "Vec::reserve"; R4 renames `.reserve(` -> `.v_reserve(`): `Vec::reserve(additional)` panics with
 // "capacity overflow" iff the needed capacity `len + additional` exceeds `isize::MAX` bytes (or overflows usize);
-// otherwise it only changes the capacity, never the contents.  The precondition below is the no-panic condition
-// (sufficient whatever the current capacity is).  Running out of memory (allocator failure -> abort) is not modelled:
-// the proportionality part of C11 is a separate explicit bound proved at the call sites.
+// otherwise it only changes the capacity, never the contents.  The first precondition below is that no-panic condition
+// (sufficient whatever the current capacity is).  Running out of memory (allocator failure -> abort) is not modelled by
+// std's contract; for the "memory in proportion to the input" part of C11 the unit uses `v_reserve_within`, the same
+// operation with an additional GHOST argument `budget` (erased at run time) and the proof obligation
+// `additional <= budget`: the call site states in which quantity the reservation is bounded (R4-budget rewrite
+// `X.reserve(` -> `X.v_reserve_within(Ghost(BUDGET), `).
 pub trait VReserveExt<T>: Sized {
     spec fn vr_view(&self) -> Seq<T>;
     fn v_reserve(&mut self, additional: usize)
@@ -32,11 +35,19 @@ pub trait VReserveExt<T>: Sized {
             (old(self).vr_view().len() + additional) * vstd::layout::size_of::<T>() <= isize::MAX,
         ensures
             final(self).vr_view() == old(self).vr_view();
+    fn v_reserve_within(&mut self, budget: Ghost<nat>, additional: usize)
+        requires
+            (old(self).vr_view().len() + additional) * vstd::layout::size_of::<T>() <= isize::MAX,
+            additional <= budget@,
+        ensures
+            final(self).vr_view() == old(self).vr_view();
 }
 impl<T> VReserveExt<T> for Vec<T> {
     open spec fn vr_view(&self) -> Seq<T> { self@ }
     #[verifier::external_body]
     fn v_reserve(&mut self, additional: usize) { unimplemented!() }
+    #[verifier::external_body]
+    fn v_reserve_within(&mut self, budget: Ghost<nat>, additional: usize) { unimplemented!() }
 }
 
 // ASSUMED (Rust language invariant, reference "Behavior considered undefined" / `slice::from_raw_parts`): the total
